@@ -92,7 +92,7 @@ CLAIMED = {
          "overflow thresholds, 24/25- and 53/54-bit quotients, ties, subnormals, NaN/inf/-0, every primitive width) and a monitor checks "
          "lossless-or-refused with round trip for From/TryFrom, and correct rounding + truthful flag + error sign for to_f32/to_f64/to_float/to_int.",
     note="Trusted: TLC, Ieee.tla (self-checked on a mini float by brute force). to_f*_fast only bounded. Repaired: F06 F07 F08 F60 F63. "
-         "Open findings (class matchers): F05 F09 F31 F61 F62 F64 F66.",
+         "Open findings (class matchers): F05 F09 F31 F64 F66. Repaired: F06 F07 F08 F60 F61 F62 F63.",
     technique="TLA+ IEEE-754 definition + encode model checked by TLC + generated boundary cases + TLC trace validation",
     design="I.3 C06"),
  "C07": dict(
@@ -101,7 +101,9 @@ CLAIMED = {
          "model-checked against Layout for all flag combinations x widths; TLC generates lengths on both sides of the per-word, 16/256-chunk and "
          "divide-and-conquer thresholds of the radix converters x radices, one-edit mutations of literals, byte magnitudes around 256^k, chunk "
          "sizes; the monitor validates digits exactly up to 2000 digits (residues modulo six primes beyond: sampled) and Rust's own i128 "
-         "formatting is a second oracle for the layout.",
+         "formatting is a second oracle for the layout. Word-level models checked by TLC in small scope: RadixPow2Alg (power-of-two radices), "
+         "ParseDcAlg (divide-and-conquer parser), PrintNp2Alg (non-power-of-two printer with its power tower), BytesAlg (byte encodings, "
+         "two's complement), ChunksAlg (bit chunks).",
     note="Trusted: TLC, BigNat radix conversion. Beyond 2000 digits the digit check can miss but never falsely accuses. F13 F14 F27 repaired.",
     technique="TLA+ layout model checked by TLC + generated threshold cases + TLC trace validation",
     design="I.3 C07"),
@@ -110,7 +112,9 @@ CLAIMED = {
          "fixed-precision printing and base/precision changes through FloatDef!Rounded; ConvertBaseAlg models the branch structure of convert_base "
          "(same base, power up/down, small exponent, large exponent abstracted) and is model-checked in bases {2,3,4,8,10,16}; TLC generates grammar "
          "derivations, round trips with exponents to +-400, precision printing in six modes, 36 base pairs around the exponent threshold; the "
-         "monitor decides everything on exact rationals.",
+         "monitor decides everything on exact rationals. FloatParseAlg models the digit-count / exponent arithmetic of the parser over a scaled-down "
+         "isize. Beyond the statement (reported as BEYOND-PROPERTY, never a violation): FloatFmtAlg models the width computation of the float "
+         "formatter and every print case is also printed with widths / fills / alignments and compared with core::fmt's layout of the unpadded text.",
     note="Trusted: TLC, Rat/FloatDef. Open findings: F05/C08, F30, C08.N1 (residual bound 2 ulp enforced), C08.N2.",
     technique="TLA+ branch model checked by TLC + grammar-derived cases + TLC trace validation on exact rationals",
     design="I.3 C08"),
@@ -137,15 +141,19 @@ CLAIMED = {
          "2^f enclosures; undecidable-close log2 cases are accepted); Log2Table transcribes the table-driven no_std log2 estimator and is "
          "model-checked for every u16 (98 k states) and compared with the recorded no_std outputs; TLC generates planted-gcd pairs (Fibonacci, "
          "k/k+1, Lehmer quotient-overflow shapes), s^n + r radicands with odd/even word counts, b^e +- 1; primitives are exhaustive for u8 (u16 by "
-         "stride in quick, complete in thorough) in std, no_std and release builds.",
-    note="Trusted: TLC, BigNat. f32 patterns: exponent x mantissa lattice, not all patterns. Repaired: F15 F16 F17 F18 F29 F50.",
+         "stride in quick, complete in thorough) in std, no_std and release builds. Word-level models checked by TLC: SqrtAlg (Karatsuba square "
+         "root), GcdLehmerAlg (Lehmer loop), GcdExtAlg (extended gcd with its cofactor buffers; word-sized gcd_ext), IlogAlg, RootRemoveAlg (Newton "
+         "nth_root, remove), PrimSqrtAlg (u128 square root of dashu-base); continued-fraction operands with a huge partial quotient where the "
+         "cofactors cross a word boundary drive the extended gcd (this is how F91 shows at 64 bits).",
+    note="Trusted: TLC, BigNat. f32 patterns: exponent x mantissa lattice, not all patterns. Repaired: F15 F16 F17 F18 F29 F50 F91.",
     technique="TLA+ relational definitions + estimator model checked by TLC + TLC trace validation in three build configurations",
     design="I.3 C12"),
  "C13": dict(
     text="ModularAlg models the pre-shifted residues, conditional subtract/borrow, negate, dbl, sqr, mul and the Reducer methods for 2-bit words x "
          "1-3 words (single, double, large representations; 600 k states) and is model-checked against the homomorphism; TLC generates 21 modulus "
          "classes x 11 ops x 10 operand shapes; the monitor reduces with BigNat!Mod, replays pow by square-and-multiply, checks inv <=> gcd = 1, "
-         "division, cross-ring panics, in debug and release builds.",
+         "division, cross-ring panics, in debug and release builds. ModPowAlg models the sliding-window power loop, ModInvAlg the inverse in a "
+         "large ring through the three extended-gcd paths (on C12's GcdExtAlg).",
     note="Trusted: TLC, BigNat!DivMod. Repaired: F23, F51 (and F34 found by C02).",
     technique="TLA+ algorithm model checked by TLC + generated cases + TLC trace validation",
     design="I.3 C13"),
@@ -165,7 +173,7 @@ CLAIMED = {
          "forked process under a watchdog and a memory limit, in debug and release builds; the monitor requires the documented panic to occur "
          "promptly and forbids panics, hangs and aborts everywhere else.",
     note="Trusted: TLC, the process isolation of the worker (20 s budget, one re-run before a timeout is believed). Repaired: F12 F25 F16 F20 F22 "
-         "F23 F29 F04(+b,c). Open findings: F11, F36, C16.N1-N4, C16.N6.",
+         "F23 F29 F04(+b,c) C16.N1 C16.N2 C16.N7. Open findings: F11, F36, C16.N3, C16.N4, C16.N6.",
     technique="TLA+ panic classification checked by TLC + one generated case per cell executed in isolated processes + TLC trace validation",
     design="I.3 C16"),
  "C17": dict(
